@@ -46,12 +46,12 @@ type C08Server struct {
 	// Rogue[i]: payload of an unsolicited message emitted when request i arrives (before anything else)
 	Rogue map[int][]byte
 	// IDToken, when set, is replaced in reply payloads by the message-id the server saw in the request
-	IDToken []byte
+	IDToken   []byte
 	StreamLen int // bytes emitted since the log was started
-	base     int // Pipe.Emitted when the log was started
-	logging  bool
-	finalLF  bool // the next client write is the return that follows a completed request
-	sent     map[int]bool
+	base      int // Pipe.Emitted when the log was started
+	logging   bool
+	finalLF   bool // the next client write is the return that follows a completed request
+	sent      map[int]bool
 }
 
 func NewC08Server(caps11 bool) *C08Server {
